@@ -182,6 +182,143 @@ def _callee_body(prog, callee, skip_self, call, counter, self_expr):
     return pre + new
 
 
+class _ExprInliner(ast.NodeTransformer):
+    """Replace calls of single-expression helpers (`def h(a, b): return E`) by E with the arguments substituted, anywhere in an
+    expression (conditions included).  Arguments must be side-effect-free expressions (names, attributes, constants, subscripts of
+    those) because substitution may duplicate or drop them."""
+
+    def __init__(self, prog, owner, local_defs, depth):
+        self.prog, self.owner, self.local_defs, self.depth = prog, owner, local_defs, depth
+
+    def visit_FunctionDef(self, n):
+        return n
+
+    visit_Lambda = visit_FunctionDef
+
+    def visit_Call(self, n):
+        self.generic_visit(n)
+        if self.depth <= 0:
+            return n
+        r = resolve_callee(self.prog, self.owner, n, self.local_defs)
+        if r is None:
+            return n
+        callee, skip = r
+        cnode = callee.node if isinstance(callee, FuncInfo) else callee
+        body = [s for s in cnode.body if not (isinstance(s, ast.Expr) and isinstance(s.value, ast.Constant) and isinstance(s.value.value, str))]
+        ret_expr = _as_expr(body)
+        if ret_expr is None:
+            return n
+        body = [ast.Return(value=ret_expr)]
+        # iterator factories (`return (x for ...)`) stay calls: rules name regions and sources by the iterator
+        if any(isinstance(x, (ast.GeneratorExp, ast.ListComp, ast.SetComp, ast.DictComp, ast.Lambda, ast.Await, ast.Yield, ast.YieldFrom, ast.NamedExpr))
+               for x in ast.walk(body[0].value)):
+            return n
+        a = cnode.args
+        if a.vararg or a.kwarg or a.kwonlyargs or any(isinstance(x, ast.Starred) for x in n.args) or any(k.arg is None for k in n.keywords):
+            return n
+        params = [x.arg for x in a.posonlyargs + a.args]
+        mapping = {}
+        if skip and params:
+            mapping[params[0]] = copy.deepcopy(n.func.value) if isinstance(n.func, ast.Attribute) else ast.Name(id=params[0], ctx=ast.Load())
+            params = params[1:]
+        defaults = dict(zip([x.arg for x in (a.posonlyargs + a.args)][-len(a.defaults):], a.defaults)) if a.defaults else {}
+        given = dict(zip(params, n.args))
+        for k in n.keywords:
+            given[k.arg] = k.value
+        for p in params:
+            v = given.get(p, defaults.get(p))
+            if v is None or not _pure_arg(v):
+                return n
+            mapping[p] = v
+        # the callee must not bind names itself (comprehension variables are fine)
+        expr = copy.deepcopy(body[0].value)
+        new = _Subst(mapping, {}).visit(expr)
+        sub_owner = callee if isinstance(callee, FuncInfo) else self.owner
+        new = _ExprInliner(self.prog, sub_owner, {}, self.depth - 1).visit(new)
+        return ast.copy_location(new, n) if hasattr(new, "lineno") or True else new
+
+
+def _as_expr(body):
+    """The value a helper returns as one expression, when its body is only guard clauses and returns (plus single-assignment
+    aliases of pure expressions): `if c: return A` + rest -> (A if c else <rest>), simplified to and/or/not when an arm is a
+    boolean constant.  None when the body does anything else."""
+    body = list(body)
+    counts = {}
+    for st in body:
+        for x in ast.walk(st):
+            if isinstance(x, ast.Name) and isinstance(x.ctx, ast.Store):
+                counts[x.id] = counts.get(x.id, 0) + 1
+
+    def go(stmts, env):
+        if not stmts:
+            return None
+        st, rest = stmts[0], stmts[1:]
+        if isinstance(st, ast.Return):
+            if st.value is None:
+                return None
+            return _Subst(env, {}).visit(copy.deepcopy(st.value)) if env else copy.deepcopy(st.value)
+        if isinstance(st, ast.Assign) and len(st.targets) == 1 and isinstance(st.targets[0], ast.Name) \
+                and counts.get(st.targets[0].id) == 1 and _pure_arg(st.value):
+            v = _Subst(env, {}).visit(copy.deepcopy(st.value)) if env else copy.deepcopy(st.value)
+            return go(rest, dict(env, **{st.targets[0].id: v}))
+        if isinstance(st, ast.If):
+            c = _Subst(env, {}).visit(copy.deepcopy(st.test)) if env else copy.deepcopy(st.test)
+            a = go(list(st.body) + rest, env)
+            b = go(list(st.orelse) + rest, env)
+            if a is None or b is None:
+                return None
+            return _bool_ifexp(c, a, b)
+        return None
+
+    return go(body, {})
+
+
+def _bool_ifexp(c, a, b):
+    def const(x, v):
+        return isinstance(x, ast.Constant) and x.value is v
+
+    def neg(x):
+        if isinstance(x, ast.UnaryOp) and isinstance(x.op, ast.Not):
+            return x.operand
+        if isinstance(x, ast.Compare) and len(x.ops) == 1:
+            flip = {ast.In: ast.NotIn, ast.NotIn: ast.In, ast.Is: ast.IsNot, ast.IsNot: ast.Is, ast.Eq: ast.NotEq, ast.NotEq: ast.Eq}
+            if type(x.ops[0]) in flip:
+                return ast.Compare(left=x.left, ops=[flip[type(x.ops[0])]()], comparators=x.comparators)
+        return ast.UnaryOp(op=ast.Not(), operand=x)
+
+    if const(a, True) and const(b, False):
+        return c
+    if const(a, False) and const(b, True):
+        return neg(c)
+    if const(a, False):
+        return ast.BoolOp(op=ast.And(), values=[neg(c), b])
+    if const(a, True):
+        return ast.BoolOp(op=ast.Or(), values=[c, b])
+    if const(b, False):
+        return ast.BoolOp(op=ast.And(), values=[c, a])
+    if const(b, True):
+        return ast.BoolOp(op=ast.Or(), values=[neg(c), a])
+    return ast.IfExp(test=c, body=a, orelse=b)
+
+
+def _pure_arg(v):
+    if isinstance(v, (ast.Name, ast.Constant)):
+        return True
+    if isinstance(v, ast.Attribute):
+        return _pure_arg(v.value)
+    if isinstance(v, ast.Subscript):
+        return _pure_arg(v.value) and _pure_arg(v.slice)
+    if isinstance(v, ast.Tuple):
+        return all(_pure_arg(e) for e in v.elts)
+    if isinstance(v, ast.Call) and dotted(v.func) in ("len", "int", "str", "tuple", "list"):
+        return all(_pure_arg(x) for x in v.args)
+    if isinstance(v, (ast.BinOp,)):
+        return _pure_arg(v.left) and _pure_arg(v.right)
+    if isinstance(v, ast.UnaryOp):
+        return _pure_arg(v.operand)
+    return False
+
+
 def expand(prog, f, depth=2):
     counter = [0]
     root = desugar(f.node)
@@ -236,8 +373,43 @@ def expand(prog, f, depth=2):
         return out
 
     root.body = walk_block(root.body, f, 0, {})
+    # expression-level inlining of single-expression helpers (predicates in conditions, value helpers in expressions)
+    local_defs = {n.name: n for n in ast.walk(root) if isinstance(n, ast.FunctionDef) and n is not root}
+    new_body = []
+    for st in root.body:
+        new_body.append(_inline_stmt_exprs(prog, f, st, local_defs, depth))
+    root.body = new_body
+    root = desugar(root) if False else root
     ast.fix_missing_locations(root)
     return root
+
+
+def _inline_stmt_exprs(prog, f, st, local_defs, depth):
+    """Apply _ExprInliner to the expressions of a statement (recursing into compound statements, not into nested defs)."""
+    inl = _ExprInliner(prog, f, local_defs, depth)
+    if isinstance(st, (ast.FunctionDef, ast.AsyncFunctionDef)):
+        st.body = [_inline_stmt_exprs(prog, f, x, local_defs, depth) for x in st.body]
+        return st
+    for fld, val in list(ast.iter_fields(st)):
+        if isinstance(val, ast.expr):
+            setattr(st, fld, inl.visit(val))
+        elif isinstance(val, list):
+            newl = []
+            for x in val:
+                if isinstance(x, ast.stmt):
+                    newl.append(_inline_stmt_exprs(prog, f, x, local_defs, depth))
+                elif isinstance(x, ast.expr):
+                    newl.append(inl.visit(x))
+                elif isinstance(x, ast.excepthandler):
+                    x.body = [_inline_stmt_exprs(prog, f, y, local_defs, depth) for y in x.body]
+                    newl.append(x)
+                elif isinstance(x, ast.withitem):
+                    x.context_expr = inl.visit(x.context_expr)
+                    newl.append(x)
+                else:
+                    newl.append(x)
+            setattr(st, fld, newl)
+    return st
 
 
 def walk_expanded(prog, f, depth=3, _seen=None):
